@@ -168,6 +168,12 @@ def explain_missing_families(ctx, c, trace, missing, smax=None):
             if frozen is not None and not any(h in frozen for h in full):
                 known.append(sorted(full)[-1])
                 continue
+            # a row or layer start that ties with the bound may come out one ulp above it in the subject's own sintl: same mechanism
+            tied = hkl.frozen_visits(c["cell"], o.Laue, c["rhomb"], smax, ties_out_except=set(full))
+            if frozen is not None and tied is not None and not any(h in tied for h in full):
+                known.append(sorted(full)[-1])
+                ctx.mon.config("row-walk finding recognised through a tie at the bound")
+                continue
             problems.append("family of %s never visited by the row-walk although the as-found walk visits it" % (sorted(full)[-1],))
         else:
             problems.append("family of %s never visited by the row-walk (Laue %s, %s)" % (sorted(full)[-1], o.Laue, o.cell_choice))
